@@ -36,7 +36,8 @@ const char *
 Http::ContentLengthInterpreter::findDigits(const char *prefix, const char * const valueEnd) const
 {
     // skip leading OWS in RFC 7230's `OWS field-value OWS`
-    const CharacterSet &whitespace = Http::One::Parser::WhitespaceCharacters();
+    // SP and HTAB only, in every parser mode: VT, FF and CR are not OWS (RFC 9110 section 5.5)
+    const CharacterSet &whitespace = CharacterSet::WSP;
     while (prefix < valueEnd) {
         const auto ch = *prefix;
         if (CharacterSet::DIGIT[ch])
@@ -56,7 +57,8 @@ Http::ContentLengthInterpreter::goodSuffix(const char *suffix, const char * cons
     if (suffix == end)
         return true;
 
-    for (const CharacterSet &delimiters = Http::One::Parser::DelimiterCharacters();
+    // SP and HTAB only, in every parser mode (see findDigits())
+    for (const CharacterSet &delimiters = CharacterSet::WSP;
             suffix < end; ++suffix) {
         if (!delimiters[*suffix])
             return false;
